@@ -72,6 +72,17 @@ def build(variant):
         o2 = pyrtl.Output(3, 'o2')
         o2 <<= r
         return pyrtl.working_block()
+    elif variant == 'memen_samedata':
+        # write ports that share BOTH the enable wire and the data wire (a broadcast write)
+        ra = pyrtl.Input(3, 'ra')
+        we = pyrtl.Input(1, 'we')
+        d = pyrtl.Input(3, 'd')
+        o = pyrtl.Output(3, 'o')
+        m = pyrtl.MemBlock(3, 3, 'm', max_write_ports=8, asynchronous=True)
+        for i in range(6):
+            m[pyrtl.Const(i, 3)] <<= pyrtl.MemBlock.EnabledWrite(d, we)
+        o <<= m[ra]
+        return pyrtl.working_block()
     elif variant == 'mems_same_name':
         # memory names, unlike memory ids, need not be unique
         a = pyrtl.Input(2, 'a')
